@@ -162,6 +162,25 @@ Theorem unused_normal_kept_used :
     In (DNormal n v) (unused_new_dists symbols dists) -> exists x, In x (n :: v) /\ In x symbols.
 Proof. exact unused_dists_normal_used. Qed.
 
+(* ... remove_unused_parameters_and_rvs never removes anything a statement mentions: a random variable (through
+   to_unjoin / unjoin / the filter on one-dimensional distributions) or a parameter whose symbol occurs in the
+   statements stays, and no random variable is invented — for every symbol set, collection of distributions (any
+   block sizes), fixed-parameter table and parameter list. *)
+Theorem unused_keeps_used_rvs :
+  forall (symbols : list id) (dists : list rdist) (n : id),
+    In n (flat_map rdist_names dists) -> In n symbols -> In n (unused_new_rv_names symbols dists).
+Proof. exact unused_keeps_used_rvs_lemma. Qed.
+
+Theorem unused_rvs_not_invented :
+  forall (symbols : list id) (dists : list rdist) (n : id),
+    In n (unused_new_rv_names symbols dists) -> In n (flat_map rdist_names dists).
+Proof. exact unused_rvs_sub. Qed.
+
+Theorem unused_keeps_used_params :
+  forall (symbols : list id) (dists : list rdist) (fixed : list (id * Q)) (params : list id) (p : id),
+    In p params -> In p symbols -> In p (unused_new_params symbols dists fixed params).
+Proof. intros. apply unused_params_exact. tauto. Qed.
+
 (* ... and a symbol that no statement mentions cannot influence any symbol of the program: removing
    it does not change the model function. *)
 Theorem unused_removed_irrelevant :
